@@ -438,7 +438,13 @@ func requestString(q types.Request) string {
 }
 
 func (p Prop) Run(r *core.Run) *core.Violation {
+	// the scenario itself (incl. the reference encodings it carries) is built under the
+	// canonical schedule: with the simulator inactive Go's own map randomisation would
+	// leak into the inputs whenever the code under test is order dependent
+	r.Sim.OrderMode = verifsim.OrderCanonical
+	r.Sim.Activate()
 	sc := genScenario(r)
+	r.Sim.Deactivate()
 	if r.Tracing {
 		r.Quiet(func() {
 			for i := range sc.ids {
@@ -545,9 +551,59 @@ func stripIndex(s string) string {
 // Refine names the iteration site(s) whose order matters: after minimisation the schedule
 // tape is all zeros except for the events that are needed for the difference.
 func (p Prop) Refine(v *core.Violation, t, s []uint32, exec func(t, s []uint32) (*core.Violation, *core.Run)) *core.Violation {
+	verifsim.RecordEventsDefault = true
+	defer func() { verifsim.RecordEventsDefault = false }()
 	nv, run := exec(t, s)
 	if nv == nil || nv.Kind != v.Kind {
 		return v
+	}
+	// Several sites left: try each one alone (all events of the other sites canonical).
+	// This only names the culprit; the replay file keeps the tapes found by minimisation.
+	perm := map[int]bool{}
+	for _, e := range run.Sim.EventLog {
+		if e.Permuted {
+			perm[e.Site] = true
+		}
+	}
+	if len(perm) > 1 {
+		sites := make([]int, 0, len(perm))
+		for k := range perm {
+			sites = append(sites, k)
+		}
+		sort.Ints(sites)
+		rec := run.S.Snapshot()
+		for _, only := range sites {
+			// rebuild the schedule tape: draws that are not iteration events (insertion
+			// permutations) and the events of the chosen site stay, every other event
+			// becomes a single 0 (= canonical)
+			var ns []uint32
+			ptr := 0
+			for _, e := range run.Sim.EventLog {
+				if e.Start < ptr || e.End > len(rec) {
+					continue
+				}
+				ns = append(ns, rec[ptr:e.Start]...)
+				if e.Site == only {
+					ns = append(ns, rec[e.Start:e.End]...)
+				} else {
+					ns = append(ns, 0)
+				}
+				ptr = e.End
+			}
+			ns = append(ns, rec[ptr:]...)
+			if cv, crun := exec(t, ns); cv != nil && cv.Kind == v.Kind {
+				single := true
+				for _, e := range crun.Sim.EventLog {
+					if e.Permuted && e.Site != only {
+						single = false
+					}
+				}
+				if single {
+					nv, run = cv, crun
+					break
+				}
+			}
+		}
 	}
 	seen := map[string]bool{}
 	var names []string
@@ -563,8 +619,14 @@ func (p Prop) Refine(v *core.Violation, t, s []uint32, exec func(t, s []uint32) 
 	if len(names) > 0 {
 		where = strings.Join(names, "+")
 	}
+	full := where
+	if len(names) > 2 {
+		// minimisation ran out of budget before isolating the site: keep the signature
+		// stable and leave the candidates in the message
+		where = "unresolved-sites"
+	}
 	out := *nv
 	out.Sig = nv.Sig + "@" + where
-	out.Msg = nv.Msg + "\n  iteration sites served in non-canonical order in the minimised schedule: " + where
+	out.Msg = nv.Msg + "\n  iteration sites served in non-canonical order in the minimised schedule: " + full
 	return &out
 }
